@@ -441,7 +441,7 @@ func run(r *mc.Run) {
 	r.Assume("a chunk file id 'comes back in canonical form' if FileChunk.GetFileIdString() returns the string that was written, whether the store hands back the string field or the structured fid")
 	var units []unit
 	if r.Quick() {
-		units = []unit{{"leveldb", "/r"}, {"leveldb2", "/r"}, {"leveldb3", "/buckets/b1"}, {"leveldb3", "/r"}}
+		units = []unit{{"leveldb", "/r"}, {"leveldb2", "/r"}, {"leveldb3", "/buckets/b1"}}
 	} else {
 		for _, k := range []string{"leveldb", "leveldb2", "leveldb3"} {
 			for _, d := range []string{"/r", "/buckets/b1", "/buckets/b1/d"} {
